@@ -76,14 +76,18 @@ pub trait Guard<F: PrimeField, CS: PolynomialCommitmentScheme<F>>: Sized {
     /// Finalize the verification guard
     fn verify(self, params: &CS::VerifierParameters) -> Result<(), Error>;
 
-    /// Finalize a batch of verification guards
+    /// Finalize a batch of verification guards, the i-th guard with the i-th
+    /// parameters. Returns `Err(Error::OpeningError)` if the numbers of guards
+    /// and of parameters differ.
     fn batch_verify<'a, I, J>(guards: I, params: J) -> Result<(), Error>
     where
         I: ExactSizeIterator<Item = Self>,
         J: ExactSizeIterator<Item = &'a CS::VerifierParameters>,
         CS::VerifierParameters: 'a,
     {
-        assert_eq!(guards.len(), params.len());
+        if guards.len() != params.len() {
+            return Err(Error::OpeningError);
+        }
         guards
             .into_iter()
             .zip(params)
